@@ -64,6 +64,8 @@ impl Part for C14 {
                     } else {
                         vec![(0, 0), (0, 17), (1, 1), (17, 0), (64, 64), (16, 1)]
                     };
+                    // long messages (a separate code path for large buffers is a classic): one (KDF) per KEM and AEAD
+                    let shapes: Vec<(usize, usize)> = if suite.kdf == suite.kem.kdf() && (t || mode == Mode::Base) { [&shapes[..], &[(4096, 3), (65537, 4097)][..]].concat() } else { shapes };
                     let shapes_first = shapes[0];
                     for (pt_len, aad_len) in shapes {
                         tag += 1;
@@ -643,7 +645,9 @@ impl Part for C15 {
                 let ops = suite_ops(*suite);
                 let alpha = history_alphabet();
                 let k = keys(suite.kem, 15_700, cfg.seed);
-                let info = bytes(Fill::Mix, 6, 10, cfg.seed);
+                // the info string EQUALS the psk_id of two letters ("tenant-7") - and, second pass, is empty like the default
+                // psk_id: the two strings are independent inputs, and nothing may key on their being equal
+                for info in [b"tenant-7".to_vec(), vec![]] {
                 // R1's exports per letter (R1 has no state at all)
                 let mut refs = vec![];
                 for (mode, psk, psk_id) in &alpha {
@@ -695,6 +699,7 @@ impl Part for C15 {
                             stack.push(q);
                         }
                     }
+                }
                 }
             }
             Case15::Schedule { suite, mode, psk_len, psk_id_len, tag } => {
